@@ -14,6 +14,8 @@ CONSTANTS MaxLen, WithBad, WithDup, GenDepth, Sim, Mixed, Burst,
           ControlPlan,\* enumerated histories: refresh; control node lost; it answers again; a refresh BEFORE the
                      \* session has reconnected (it has to return); the reconnection
                      \* (in simulation: "answers again" / "reconnects" are two more kinds of step)
+          RetryPlan, \* enumerated histories: two nodes (each plain or multi-homed); the first stops answering; DOWN and
+                     \* then UP are reported for one of its addresses (the session retries it in vain); a refresh
           Overlap,   \* enumerated histories: a set-up refresh, then two steps of which the second happens
                      \* while the first is still in progress (see OverlapSteps)
           LateEvents,\* enumerated histories end with one status event for any address (also addresses
@@ -156,7 +158,13 @@ LateSteps == \E b \in {<<Ev(k, a)>> : k \in {"UP", "DOWN"}, a \in EvA} : Events(
 
 Next ==
   /\ Len(hist) < GenDepth
-  /\ IF ControlPlan /\ ~Sim THEN
+  /\ IF RetryPlan /\ ~Sim THEN
+       CASE Len(hist) = 0 -> \E l \in {x \in CanonLists : Len(x) = 2} : Refresh(l, "none") /\ Rec("refresh", l, "none", <<>>, "")
+         [] Len(hist) = 1 -> NodeFail(truth, "a1") /\ Rec("nodefail", truth, "none", <<>>, "a1")
+         [] Len(hist) = 2 -> \E x \in {"a1", "b1"} : Events(truth, <<Ev("DOWN", x)>>) /\ Rec("events", truth, "none", <<Ev("DOWN", x)>>, "")
+         [] Len(hist) = 3 -> \E x \in {"a1", "b1"} : Events(truth, <<Ev("UP", x)>>) /\ Rec("events", truth, "none", <<Ev("UP", x)>>, "")
+         [] OTHER -> \E l \in {x \in Lists : Len(x) <= 1} : Refresh(l, "none") /\ Rec("refresh", l, "none", <<>>, "")
+     ELSE IF ControlPlan /\ ~Sim THEN
        CASE Len(hist) = 0 -> \E l \in CanonLists : Refresh(l, "none") /\ Rec("refresh", l, "none", <<>>, "")
          [] Len(hist) = 1 -> NodeFail(truth, C0addr) /\ Rec("nodefail", truth, "none", <<>>, C0addr)
          [] Len(hist) = 2 -> Heal(truth) /\ Rec("heal", truth, "none", <<>>, C0addr)
